@@ -53,7 +53,12 @@ def showObs : Obs → String
   | .chan uid => s!"ch={uid}"
   | .nil => "nil"
   | .pushes ps dl =>
-    s!"n={ps.length}" ++ String.join ((sortPushes ps).map fun p => " ; " ++ showPush p) ++ " | " ++ showDl dl
+    -- tuples with an empty id list reach nobody: whether they are sent is not observed,
+    -- only that no front is addressed twice (`once=1`, evaluated over all tuples)
+    let ne := ps.filter (fun p => !p.ids.isEmpty)
+    let fronts := ps.map (·.front)
+    s!"n={ne.length}" ++ String.join ((sortPushes ne).map fun p => " ; " ++ showPush p) ++
+      " | once=" ++ (if fronts.eraseDups.length == fronts.length then "1" else "0") ++ " " ++ showDl dl
   | .added id live => s!"id={id} live={showIds live}"
   | .removed found live => (if found then "ok" else "missing") ++ s!" live={showIds live}"
   | .delivered dl => showDl dl
@@ -130,6 +135,7 @@ structure Spec where
   created : Nat := 0
   live : List Nat := []
   slots : List String := []
+  dead : Bool := false                               -- a crash was reported: nothing more is judged until the next reset
 
 def Spec.group (s : Spec) (c f : String) : Option (List Nat) :=
   (s.grp.find? (fun e => e.1.1 == c && e.1.2 == f)).map (·.2)
@@ -186,7 +192,8 @@ def viol (reason op : String) : String := "VIOLATION C16/" ++ reason ++ " | op: 
 def specStep (s : Spec) (line : String) : Spec × String :=
   match line.splitOn "\t" with
   | [op, obs] =>
-    if obs.startsWith "panic" || obs.startsWith "<no-observation" then (s, viol ("crash " ++ obs) op)
+    if s.dead && !op.startsWith "reset" then (s, "ok")
+    else if obs.startsWith "panic" || obs.startsWith "<no-observation" then ({ s with dead := true }, viol ("crash " ++ obs) op)
     else
     let ws := words op
     let out (s' : Spec) (r : Option String) : Spec × String :=
@@ -229,33 +236,31 @@ def specStep (s : Spec) (line : String) : Spec × String :=
         match obs.splitOn " | " with
         | [left, right] =>
           let segs := (left.splitOn " ; ").drop 1
-          match segs.mapM parsePushSeg, parseDl ((right.drop 3).toString) with
-          | some ps, some dl =>
+          let rws := words right
+          match segs.mapM parsePushSeg, (kv rws "dl").bind parseDl, kv rws "once" with
+          | some ps, some dl, some once =>
             let fronts := ps.map (·.front)
-            let want := s.grp.filter (·.1.1 == c)
+            -- fronts the property wants addressed: those with at least one listed id
+            let want := (s.grp.filter (fun e => e.1.1 == c && !e.2.isEmpty)).map (·.1.2)
+            let listedFor (f : String) : List Nat := (s.group c f).getD []
             let r : Option String :=
-              if !right.startsWith "dl=" then some ("unparseable-observation " ++ obs)
-              else if fronts.eraseDups.length != fronts.length then
+              if once != "1" || fronts.eraseDups.length != fronts.length then
                 some s!"front-addressed-twice a front-end is addressed more than once in one broadcast: {obs}"
-              else match ps.find? (fun p => (s.group c p.front).isNone) with
-              | some p => some s!"non-member-front-addressed front {p.front} has no member of {c}: {obs}"
+              else match want.find? (fun f => !fronts.contains f) with
+              | some f => some s!"front-not-addressed front {f} has members [{showIds (listedFor f)}] in {c} but got no push: {obs}"
               | none =>
-              match want.find? (fun e => !fronts.contains e.1.2) with
-              | some e => some s!"front-not-addressed front {e.1.2} has a group in {c} (ids {showIds e.2}) but got no push: {obs}"
-              | none =>
-              match ps.find? (fun p => s.group c p.front != some p.ids) with
+              match ps.find? (fun p => listedFor p.front != p.ids) with
               | some p =>
-                let w := (s.group c p.front).getD []
-                some s!"{classifyIds p.ids w} front {p.front}: listed [{showIds p.ids}] but members in join order are [{showIds w}]"
+                some s!"{classifyIds p.ids (listedFor p.front)} front {p.front}: listed [{showIds p.ids}] but members in join order are [{showIds (listedFor p.front)}]"
               | none =>
               match ps.find? (fun p => p.route != route || p.msg != msg) with
               | some p => some s!"wrong-route-or-payload {showPush p}"
               | none =>
-                let wantDl := expectDl s.live ((s.group c s.lf).getD []) route (hexOfBytes (ser msg))
+                let wantDl := expectDl s.live (listedFor s.lf) route (hexOfBytes (ser msg))
                 if dl == wantDl then none
-                else some s!"local-delivery-mismatch connections of {s.lf} received [{right}] but live sessions are [{showIds s.live}]"
+                else some s!"local-delivery-mismatch connections of {s.lf} received [{right}] but listed are [{showIds (listedFor s.lf)}] and live sessions are [{showIds s.live}]"
             out s r
-          | _, _ => out s (some ("unparseable-observation " ++ obs))
+          | _, _, _ => out s (some ("unparseable-observation " ++ obs))
         | _ => out s (some ("unparseable-observation " ++ obs))
     | .op .sadd =>
       match (kv (words obs) "id").bind parseU32, (kv (words obs) "live").bind parseIds with
